@@ -304,6 +304,10 @@ pub const PHN: [&str; 4] = ["Sleeping", "Marking", "Marked", "Sweeping"];
 // ------------------------------------------------------------------------------------------------
 // the world
 
+/// The pacing every explored arena is given explicitly (the values of `Pacing::DEFAULT` of the pinned
+/// tree, spelled out so that the monitors do not depend on what DEFAULT is).
+pub const PACING: gc_arena::metrics::Pacing =
+    gc_arena::metrics::Pacing { sleep_factor: 0.5, min_sleep: 256, mark_factor: 0.1, trace_factor: 0.4, keep_factor: 0.05, drop_factor: 0.2, free_factor: 0.3 };
 pub const EPS: f64 = 0.01;
 pub const HUGE: f64 = 1.0e5;
 pub const SNAP_CAP: usize = 64;
@@ -354,6 +358,7 @@ impl World {
             talloc::register_gc(*a, base + 120 + i as u32);
         }
         let metrics = arena.metrics().clone();
+        metrics.set_pacing(PACING);
         World {
             arena: Some(arena),
             metrics,
